@@ -447,6 +447,47 @@ class ConeCylKind(Kind):
         return ops
 
 
+class AnalysisKind(Kind):
+    """The Newton-Raphson driver object itself (every Panel / ConeCyl owns one and re-uses it for each static analysis), driven by the
+    scripted environment of C09: each operation is one complete analysis whose per-step outcomes are dictated by a fixed script, so
+    its result may not depend on what was run before on the same object."""
+    name = 'Analysis/NR-driver'
+    warmup = ()
+
+    def __init__(self, initialInc=0.3):
+        self.initialInc = initialInc
+        if initialInc != 0.3:
+            self.name = 'Analysis/NR-driver/initialInc%g' % initialInc
+
+    def _cfg(self):
+        from . import c09
+        return dict(c09.DEFAULT, line_search=False, maxNumIter=6, initialInc=self.initialInc)
+
+    def make(self, seed):
+        from compmech.analysis import Analysis
+        an = Analysis()
+        for k, v in self._cfg().items():
+            if k in an.__slots__:
+                setattr(an, k, v)
+        return an
+
+    def ops(self, seed):
+        from . import c09
+        cfg = self._cfg()
+
+        def run(prefix, linear=False):
+            def op(an):
+                env = c09.Env(dict(cfg, linear=linear), prefix, 'mode')
+                an.calc_fext, an.calc_k0, an.calc_fint, an.calc_kT = env.calc_fext, env.calc_k0, env.calc_fint, env.calc_kT
+                env.analysis = an
+                with np.errstate(all='ignore'):
+                    an.static(NLgeom=True, silent=True)
+                return [[float(v) for v in an.increments], [np.array(c) for c in an.cs][-1:]]
+            return op
+        return {'nl:fast': run([]), 'nl:late_first': run([1]), 'nl:diverge_first': run([2]), 'nl:slow_first': run([3]), 'nl:never_first': run([4]),
+                'nl:fast_then_diverge': run([0, 2]), 'nl:linear_problem': run([], linear=True)}
+
+
 def _with_cores(obj, k, fn):
     old = obj.out_num_cores
     obj.out_num_cores = k
@@ -542,12 +583,12 @@ SIG_STALE_PLY = 'C20:Panel-derived-ply-lists-survive-a-change-of-plyt-laminaprop
 KINDS = {k.name: k for k in [PanelKind('plate'), PanelKind('cpanel'), AssemblyKind(), BayKind('b1d'), BayKind('b1d_base'),
                              BayKind('b2d'), BayKind('t2d'), ConeCylKind(0.0), ConeCylKind(20.0),
                              ConeCylKind(0.0, 'fsdt_donnell_bc1'), ConeCylKind(20.0, 'clpt_donnell_bc1', 'presc'),
-                             ConeCylKind(0.0, 'clpt_donnell_bc1', 'ortho')]}
+                             ConeCylKind(0.0, 'clpt_donnell_bc1', 'ortho'), AnalysisKind(), AnalysisKind(1.0)]}
 
 
 # ----------------------------------------------------------------------------------------------- exploration
 # quick tier: every call is tried first, but only these state-sensitive calls are tried as the following call
-PROBE = {'eig:lb', 'fint.5', 'uvw_full.5', 'k0', 'kM', 'kA', 'kT', 'fint', 'fext', 'static', 'uvw', 'stress', 'uvw_skin_grid', 'uvw_skin', 'uvw_flange', 'k0_conn', 'kG0c', 'cA',
+PROBE = {'nl:fast', 'nl:late_first', 'nl:diverge_first', 'nl:fast_then_diverge', 'eig:lb', 'fint.5', 'uvw_full.5', 'k0', 'kM', 'kA', 'kT', 'fint', 'fext', 'static', 'uvw', 'stress', 'uvw_skin_grid', 'uvw_skin', 'uvw_flange', 'k0_conn', 'kG0c', 'cA',
          'uvw_grid', 'eig:freq_dense'}
 
 
